@@ -2405,6 +2405,10 @@ impl LineBuf {
 				};
 				for line_no in line_range {
 					let Some((start,end)) = self.line_bounds(line_no) else { continue };
+					if line_no > 0 && start == self.cursor.max {
+						// A final newline ends the last line, it does not start another one
+						continue
+					}
 					let line = self.slice(start..end).unwrap_or_default();
 
 					match motion.1 {
